@@ -194,6 +194,7 @@ RULES = [
     ("C04-R8", "the byte count of Read::read bounds the data examined [shared with C04]", lambda ctx: __import__("extra2").read_amount_used(ctx)),
     ("C07-R6", "an aggregate ranges over the readable data: empty cells of unreadable entries take no part in MIN / MAX [shared with C07]", lambda ctx: __import__("c07").r6(ctx)),
     ("X-PIPELINE", "the per-entry pipeline of check_file evaluated on its scenario table (filter, count, row, buffer key, separator, closed output) [shared]", lambda ctx: __import__("cfile").pipeline(ctx)),
+    ("C01-R8", "every search root is walked: a failing root is not skipped before the walker counts it [shared with C01]", lambda ctx: __import__("c01").r8(ctx)),
 ]
 
 EXPLANATION = (
